@@ -82,7 +82,8 @@ PROPS = {
     },
     "C03": {
         "modules": ["C03"],
-        "streams": [{"name": "apply", "quick": 45, "thorough": 600, "rayon": [1, 4, 2, 16]}, {"name": "chain", "quick": 20, "thorough": 300, "rayon": [1, 3]}],
+        "streams": [{"name": "apply", "quick": 45, "thorough": 600, "rayon": [1, 4, 2, 16]}, {"name": "chain", "quick": 20, "thorough": 300, "rayon": [1, 3]},
+                    {"name": "mint", "quick": 60, "thorough": 600}],
         "projection": "batch_all",
         "compare_rayon": True,
         "oracles": [],
@@ -136,7 +137,7 @@ PROPS = {
         "modules": ["C18"],
         "streams": [{"name": "mint", "quick": 120, "thorough": 1500}, {"name": "apply", "quick": 30, "thorough": 400}],
         "projection": "speed",
-        "oracles": [],
+        "oracles": ["mint"],
         "assumptions": ["MelPoW verification is a parameter: the verdict for the puzzle (header at the coin's height, coin id) is computed by the harness from the specification with the real melpow and shipped to the model"],
     },
     "C19": {
